@@ -19,3 +19,5 @@ open Dashu.Props.C04Gen
 #print axioms rounding_regenerated
 #print axioms unary_regenerated
 #print axioms constructors_regenerated
+#print axioms const_constructors_regenerated
+#print axioms const_gcd_loop_regenerated
